@@ -464,6 +464,13 @@ def g_simplices(ctx, rng, i):
     if s2 is not None:
         _try(lambda: s2.length)
         _try(lambda: s2.midpoint)
+    # flat simplices (three collinear points, four coplanar points): the volume is 0, not nan
+    if dim == 3:
+        a_, b_ = (np.asarray(x.normalized_array, dtype=float)[:3] for x in P[:2])
+        c_ = a_ + float(gen.pick(rng, [1.3, -0.5, 2.0])) * (b_ - a_)
+        flat = _try(g.Simplex, g.Point(*a_), g.Point(*b_), g.Point(*c_))
+        if flat is not None:
+            _try(lambda: flat.volume)
     # collections of segments
     A = np.stack([gen.finite_point(rng, dim, 7, mode) for _ in range(3)])
     B = np.stack([gen.finite_point(rng, dim, 7, mode) for _ in range(3)])
